@@ -10,10 +10,12 @@ VARIABLES l, bad, known, outside
 Init == l = 1 /\ bad = <<>> /\ known = 0 /\ outside = 0
 Next == /\ l <= Len(Recs) /\ l' = l + 1
         /\ LET r == Recs[l]
-               exp == DfResult(DefragSpec(r.in, r.arg), "none")
-               alt == DfResult(DefragAsBuilt(r.in, r.arg), DfErrAsBuilt(r.in, r.arg))
+               lim == DfArgLim(r.arg)
+               pre == DfArgPre(r.arg)
+               exp == DfResult(DefragSpec(r.in, lim), DfErrSpec(r.in, pre))
+               alt == DfResult(DefragAsBuilt(r.in, lim), DfErrAsBuilt(r.in, lim, pre))
            IN IF r.panic # "" THEN bad' = Append(bad, [line |-> l, exp |-> exp, alt |-> alt]) /\ UNCHANGED <<known, outside>>
-              ELSE IF ~DfInDomain(r.in, r.arg) THEN outside' = outside + 1 /\ UNCHANGED <<bad, known>>
+              ELSE IF ~DfInDomain(r.in, lim) THEN outside' = outside + 1 /\ UNCHANGED <<bad, known>>
               ELSE IF r.out = exp THEN UNCHANGED <<bad, known, outside>>
               ELSE IF r.out = alt THEN known' = known + 1 /\ UNCHANGED <<bad, outside>>
               ELSE bad' = Append(bad, [line |-> l, exp |-> exp, alt |-> alt]) /\ UNCHANGED <<known, outside>>
